@@ -3,7 +3,7 @@ CONSTANT MaxB = 200
 CONSTANT MaxMinP = 12
 CONSTANT MaxGases <- McMaxGasesThorough
 CONSTANT MaxBlocks = 5
-CONSTANT GovFull = TRUE
+CONSTANT GovFull = "none"
 CONSTANT EndOrder = "gov-then-fee"
 CONSTANT UnlimitedUsed = 20
 INVARIANT NonNeg
